@@ -86,6 +86,8 @@ Definition ren (rho : var -> var) (e : ev) : ev :=
   match e with
   | EFetchSlot v s => EFetchSlot (rho v) s
   | EFetchItem v d => EFetchItem (rho v) (rho d)
+  | EFetchTuple v t => EFetchTuple (rho v) (rho t)
+  | EForget => EForget
   | ENewRef v => ENewRef (rho v)
   | EIncref v => EIncref (rho v)
   | EDecref v => EDecref (rho v)
@@ -106,8 +108,8 @@ Definition ren (rho : var -> var) (e : ev) : ev :=
 Definition ev_vars (e : ev) : list var :=
   match e with
   | EFetchSlot v _ | ENewRef v | EIncref v | EDecref v | EUse v | EStoreSlot _ v | ESwapSlot _ v => [v]
-  | EFetchItem v d | EStoreItem d v | EStealItem d v | EMoveRef v d => [v; d]
-  | EMayCall | EKeyCall | EClearSlot _ | EAssumeSlot _ _ => []
+  | EFetchItem v d | EStoreItem d v | EStealItem d v | EMoveRef v d | EFetchTuple v d => [v; d]
+  | EMayCall | EKeyCall | EClearSlot _ | EAssumeSlot _ _ | EForget => []
   | ECall _ args ret => somes args ++ match ret with Some r => [r] | None => [] end
   | EReturn r => match r with Some v => [v] | None => [] end
   end.
@@ -140,7 +142,7 @@ Lemma expand_ev_prim e : is_return e = false -> Forall prim (expand_ev e).
 Proof.
   destruct e; cbn [is_return expand_ev]; intros H; try discriminate; try (constructor; [exact I | constructor]).
   apply Forall_app. split; [apply Forall_map_use|].
-  constructor; [exact I|]. apply Forall_app. split; [apply Forall_map_use|].
+  constructor; [exact I|]. constructor; [exact I|]. apply Forall_app. split; [apply Forall_map_use|].
   destruct ret; [constructor; [exact I | constructor] | constructor].
 Qed.
 
@@ -169,6 +171,7 @@ Section SimSec.
     match x with
     | SOwned c => y = SOwned (c + n)
     | SFresh => n = 0 /\ y = SFresh
+    | SVia t => n = 0 /\ y = SVia (rho t) /\ dom t
     | SStale => n = 0 /\ is_owned y = false
     end.
 
@@ -215,7 +218,46 @@ Section SimSec.
     destruct x; cbn.
     - intros [H1 H2]. split; auto. destruct y; auto.
     - intros [H1 H2]. subst. cbn. auto.
+    - intros [H1 [H2 H3]]. subst. cbn. auto.
     - intros ->. reflexivity.
+  Qed.
+
+  Lemma Sim_unvia dq di v : Sim dq di -> dom v -> Sim (unvia v dq) (unvia (rho v) di).
+  Proof.
+    intros S Dv. constructor.
+    - intros w Dw. pose proof (sim_v _ _ S w Dw) as H. rewrite !stat_unvia.
+      destruct (stat dq w) eqn:E; cbn in H |- *.
+      + destruct H as [H1 H2]. split; auto. destruct (stat di (rho w)); auto. destruct (Nat.eqb t (rho v)); auto.
+      + destruct H as [H1 H2]. rewrite H2. auto.
+      + destruct H as [H1 [H2 H3]]. rewrite H2. destruct (Nat.eqb t v) eqn:Et.
+        * apply Nat.eqb_eq in Et. subst t. rewrite Nat.eqb_refl. cbn. auto.
+        * destruct (Nat.eqb (rho t) (rho v)) eqn:Er.
+          -- apply Nat.eqb_eq in Er. apply rho_inj in Er; auto. subst. rewrite Nat.eqb_refl in Et. discriminate.
+          -- cbn. auto.
+      + rewrite H. reflexivity.
+    - intros u Ou c. rewrite (sim_o _ _ S u Ou c). rewrite stat_unvia.
+      destruct (stat di u); try (split; congruence). destruct (Nat.eqb t (rho v)); split; congruence.
+    - apply S.
+    - apply S.
+  Qed.
+
+  Lemma Sim_reassign dq di v x y : Sim dq di -> dom v -> R x y (shift v) ->
+    Sim (reassign dq v x) (reassign di (rho v) y).
+  Proof. intros S Dv Rxy. unfold reassign. apply Sim_set; auto. apply Sim_unvia; auto. Qed.
+
+  Lemma Sim_forget dq di : Sim dq di -> Sim (forget dq) (forget di).
+  Proof.
+    intros S. constructor.
+    - intros w Dw. pose proof (sim_v _ _ S w Dw) as H. rewrite !stat_forget.
+      destruct (stat dq w) eqn:E; cbn in H |- *.
+      + destruct H as [H1 H2]. split; auto. destruct (stat di (rho w)); auto.
+      + destruct H as [H1 H2]. rewrite H2. auto.
+      + destruct H as [H1 [H2 H3]]. rewrite H2. cbn. auto.
+      + rewrite H. reflexivity.
+    - intros u Ou c. rewrite (sim_o _ _ S u Ou c). rewrite stat_forget.
+      destruct (stat di u); split; congruence.
+    - apply S.
+    - apply S.
   Qed.
 
   Lemma Sim_inval dq di : Sim dq di -> Sim (invalidate dq) (invalidate di).
@@ -231,8 +273,10 @@ Section SimSec.
   Lemma R_valid dq di v : Sim dq di -> dom v -> valid dq v = true -> valid di (rho v) = true.
   Proof.
     intros S Dv V. pose proof (sim_v _ _ S v Dv) as H. unfold valid in *.
-    destruct (stat dq v); try discriminate; cbn in H.
+    destruct (stat dq v) eqn:Es; try discriminate; cbn in H.
     - destruct H as [_ ->]. reflexivity.
+    - destruct H as [_ [-> Dt]]. pose proof (sim_v _ _ S t Dt) as Ht.
+      destruct (stat dq t); try discriminate. cbn in Ht. rewrite Ht. reflexivity.
     - rewrite H. reflexivity.
   Qed.
 
@@ -243,6 +287,7 @@ Section SimSec.
     destruct (stat dq v); try discriminate; cbn in H.
     - tauto.
     - destruct H as [H ->]. auto.
+    - destruct H as [H [-> _]]. auto.
   Qed.
 
   Lemma Sim_slots dq di e1 f1 e2 f2 : Sim dq di -> incl e1 e2 -> incl f1 f2 ->
@@ -258,12 +303,12 @@ Section SimSec.
                 d_empty dq1 = d_empty dq /\ d_full dq1 = d_full dq.
   Proof.
     intros S Dv Ha Dr SH. pose proof (sim_v _ _ S v Dv) as H. unfold drop_one in *.
-    destruct (stat dq v) as [| |[|c]] eqn:E; try discriminate; inversion Dr; subst dq1; clear Dr; cbn in H.
+    destruct (stat dq v) as [| | |[|c]] eqn:E; try discriminate; inversion Dr; subst dq1; clear Dr; cbn in H.
     - assert (Z : shift v = 0).
       { destruct (shift v) eqn:Es; auto. exfalso. rewrite stat_set_stat, Nat.eqb_refl in SH.
         assert (is_owned after = true) by (apply SH; lia). destruct Ha as [-> | ->]; discriminate. }
       rewrite Z in H. cbn in H. rewrite H. eexists. split; [reflexivity|]. split; [|auto].
-      apply Sim_set; auto. rewrite Z. destruct Ha as [-> | ->]; cbn; auto.
+      apply Sim_set; [apply Sim_unvia; auto | auto |]. rewrite Z. destruct Ha as [-> | ->]; cbn; auto.
     - rewrite H. cbn. eexists. split; [reflexivity|]. split; [|auto].
       apply Sim_set; auto. cbn. reflexivity.
   Qed.
@@ -285,26 +330,39 @@ Section SimSec.
       destruct (R_not_owned _ _ v S D1 C1) as [Z N]. rewrite N. cbn [negb andb].
       assert (M : mem s (d_full di) = true).
       { apply mem_In. apply (sim_f _ _ S). apply mem_In. exact C2. }
-      rewrite M. eexists. split; [reflexivity|]. apply Sim_set; auto. rewrite Z. cbn. auto.
+      rewrite M. eexists. split; [reflexivity|]. apply Sim_reassign; auto. rewrite Z. cbn. auto.
     - (* EFetchItem *)
       assert (D1 : dom v) by (apply Dv; cbn; tauto). assert (D2 : dom d) by (apply Dv; cbn; tauto).
       destruct (negb (is_owned (stat dq v)) && valid dq d) eqn:C; [|discriminate]. inversion Ds; subst dq'.
       apply andb_true_iff in C. destruct C as [C1 C2]. apply negb_true_iff in C1.
       destruct (R_not_owned _ _ v S D1 C1) as [Z N]. rewrite N, (R_valid _ _ d S D2 C2). cbn.
-      eexists. split; [reflexivity|]. apply Sim_set; auto. rewrite Z. cbn. auto.
+      eexists. split; [reflexivity|]. apply Sim_reassign; auto. rewrite Z. cbn. auto.
+    - (* EFetchTuple *)
+      assert (D1 : dom v) by (apply Dv; cbn; tauto). assert (D2 : dom t) by (apply Dv; cbn; tauto).
+      destruct (negb (is_owned (stat dq v)) && is_owned (stat dq t) && negb (Nat.eqb v t)) eqn:C; [|discriminate].
+      inversion Ds; subst dq'. apply andb_true_iff in C. destruct C as [C C3]. apply andb_true_iff in C. destruct C as [C1 C2].
+      apply negb_true_iff in C1, C3. apply Nat.eqb_neq in C3.
+      destruct (R_not_owned _ _ v S D1 C1) as [Z N]. rewrite N.
+      assert (Ot : is_owned (stat di (rho t)) = true).
+      { pose proof (sim_v _ _ S t D2) as Ht. destruct (stat dq t); try discriminate. cbn in Ht. rewrite Ht. reflexivity. }
+      assert (Ne : Nat.eqb (rho v) (rho t) = false).
+      { apply Nat.eqb_neq. intros F. apply rho_inj in F; auto. }
+      rewrite Ot, Ne. cbn. eexists. split; [reflexivity|]. apply Sim_reassign; auto. rewrite Z. cbn. auto.
+    - (* EForget *) inversion Ds; subst. eexists. split; [reflexivity|]. apply Sim_forget; auto.
     - (* ENewRef *)
       assert (D1 : dom v) by (apply Dv; cbn; tauto).
       destruct (negb (is_owned (stat dq v))) eqn:C; [|discriminate]. inversion Ds; subst dq'.
       apply negb_true_iff in C. destruct (R_not_owned _ _ v S D1 C) as [Z N]. rewrite N. cbn.
-      eexists. split; [reflexivity|]. apply Sim_set; auto. rewrite Z. cbn. reflexivity.
+      eexists. split; [reflexivity|]. apply Sim_reassign; auto. rewrite Z. cbn. reflexivity.
     - (* EIncref *)
       assert (D1 : dom v) by (apply Dv; cbn; tauto).
       destruct (valid dq v) eqn:V; [|discriminate]. inversion Ds; subst dq'.
-      rewrite (R_valid _ _ v S D1 V). eexists. split; [reflexivity|]. apply Sim_set; auto.
+      rewrite (R_valid _ _ v S D1 V). eexists. split; [reflexivity|].
       pose proof (sim_v _ _ S v D1) as H. unfold valid in V.
-      destruct (stat dq v); try discriminate; cbn in H.
-      + destruct H as [Z ->]. rewrite Z. cbn. reflexivity.
-      + rewrite H. cbn. reflexivity.
+      destruct (stat dq v) eqn:Es; try discriminate; cbn in H.
+      + destruct H as [Z ->]. apply Sim_reassign; auto. rewrite Z. cbn. reflexivity.
+      + destruct H as [Z [-> _]]. apply Sim_reassign; auto. rewrite Z. cbn. reflexivity.
+      + rewrite H. apply Sim_set; auto. cbn. reflexivity.
     - (* EDecref *)
       assert (D1 : dom v) by (apply Dv; cbn; tauto).
       destruct (drop_one dq v SStale) as [dq1|] eqn:Dr; [|discriminate]. inversion Ds; subst dq'.
@@ -367,9 +425,9 @@ Section SimSec.
       { apply Nat.eqb_neq. intros F. apply rho_inj in F; auto. }
       rewrite Ne. cbn.
       destruct (Sim_drop _ _ v SStale dq1 S D2 (or_intror eq_refl) Dr) as [di1 [E1 [S1 _]]].
-      { intros P. specialize (SH v D2 P). rewrite stat_set_stat in SH.
-        destruct (Nat.eqb v r) eqn:E; auto. apply Nat.eqb_eq in E. congruence. }
-      rewrite E1. cbn. eexists. split; [reflexivity|]. apply Sim_set; auto. rewrite Z. cbn. reflexivity.
+      { intros P. specialize (SH v D2 P). rewrite stat_reassign in SH.
+        destruct (Nat.eqb v r) eqn:E; [apply Nat.eqb_eq in E; congruence|]. rewrite owned_unvia in SH. exact SH. }
+      rewrite E1. cbn. eexists. split; [reflexivity|]. apply Sim_reassign; auto. rewrite Z. cbn. reflexivity.
   Qed.
 
   (* whole bodies: the callee side is checked against its parameters [gps], the image side against [cps] *)
@@ -397,6 +455,12 @@ Section SimSec.
 End SimSec.
 
 (* ------------------------------------------------------------------ "at least as permissive" *)
+(* what a status is after a call summary: borrowed pointers of every kind are given up *)
+Definition dem2 (x : vstat) : vstat := match x with SFresh | SVia _ => SStale | _ => x end.
+
+Lemma stat_forget_inval d w : stat (forget (invalidate d)) w = dem2 (stat d w).
+Proof. rewrite stat_forget, stat_invalidate. destruct (stat d w); reflexivity. Qed.
+
 Definition idv (v : var) : var := v.
 Definition LE (d1 d2 : dst) : Prop := Sim idv (fun _ => 0) (fun _ => True) d1 d1 d2.
 
@@ -422,10 +486,12 @@ Proof.
   - apply incl_refl.
 Qed.
 
-Lemma LE_stat d1 d2 v : LE d1 d2 -> R (stat d1 v) (stat d2 v) 0.
+Notation R0 := (R idv (fun _ => True)).
+
+Lemma LE_stat d1 d2 v : LE d1 d2 -> R0 (stat d1 v) (stat d2 v) 0.
 Proof. intros L. exact (sim_v _ _ _ _ _ _ L v I). Qed.
 
-Lemma LE_intro d1 d2 : (forall v, R (stat d1 v) (stat d2 v) 0) ->
+Lemma LE_intro d1 d2 : (forall v, R0 (stat d1 v) (stat d2 v) 0) ->
   incl (d_empty d1) (d_empty d2) -> incl (d_full d1) (d_full d2) -> LE d1 d2.
 Proof.
   intros H He Hf. constructor; [intros v _; exact (H v) | | exact He | exact Hf].
@@ -478,59 +544,78 @@ Proof.
   intros L F O.
   assert (O2 : params_once ps d2 = true).
   { unfold params_once in *. rewrite forallb_forall in *. intros p Hp. specialize (O p Hp).
-    pose proof (LE_stat _ _ p L) as Rp. destruct (stat d1 p) as [| |[|n]]; try discriminate. cbn in Rp. rewrite Rp. reflexivity. }
+    pose proof (LE_stat _ _ p L) as Rp. destruct (stat d1 p) as [| | |[|n]]; try discriminate. cbn in Rp. rewrite Rp. reflexivity. }
   split; auto. unfold d_final in *. rewrite forallb_forall in *. intros [v x] Hv. cbn [fst].
-  pose proof (LE_stat _ _ v L) as Rv. destruct (stat d2 v) as [| |n] eqn:E2.
-  - apply negb_true_iff. destruct (mem v ps) eqn:M; auto. apply mem_In in M.
-    unfold params_once in O2. rewrite forallb_forall in O2. specialize (O2 v M). rewrite E2 in O2. discriminate.
-  - apply negb_true_iff. destruct (mem v ps) eqn:M; auto. apply mem_In in M.
-    unfold params_once in O2. rewrite forallb_forall in O2. specialize (O2 v M). rewrite E2 in O2. discriminate.
-  - destruct (stat d1 v) as [| |m] eqn:E1; cbn in Rv.
-    + destruct Rv as [_ Rv]. discriminate.
-    + destruct Rv as [_ Rv]. discriminate.
-    + inversion Rv. rewrite Nat.add_0_r in *. subst n.
-      destruct (stat_owned_entry d1 v m E1) as [y Hy]. specialize (F (v, y) Hy). cbn [fst] in F. rewrite E1 in F. exact F.
+  pose proof (LE_stat _ _ v L) as Rv.
+  assert (NP : is_owned (stat d2 v) = false -> negb (mem v ps) = true).
+  { intros No. apply negb_true_iff. destruct (mem v ps) eqn:M; auto. apply mem_In in M.
+    unfold params_once in O2. rewrite forallb_forall in O2. specialize (O2 v M).
+    destruct (stat d2 v) as [| | |[|n]]; discriminate. }
+  destruct (stat d2 v) as [| | |n] eqn:E2; try (apply NP; reflexivity).
+  destruct (stat d1 v) as [| | |m] eqn:E1; cbn in Rv.
+  - destruct Rv as [_ Rv]. discriminate.
+  - destruct Rv as [_ Rv]. discriminate.
+  - destruct Rv as [_ [Rv _]]. discriminate.
+  - inversion Rv. rewrite Nat.add_0_r in *. subst n.
+    destruct (stat_owned_entry d1 v m E1) as [y Hy]. specialize (F (v, y) Hy). cbn [fst] in F. rewrite E1 in F. exact F.
 Qed.
 
 (* ------------------------------------------------------------------ events that do not mention a variable *)
-Lemma stat_drop_other d v after d1 w : drop_one d v after = Some d1 -> w <> v -> stat d1 w = stat d w.
+Lemma stale_set d v x w : w <> v -> stat d w = SStale -> stat (set_stat d v x) w = SStale.
+Proof. intros N H. rewrite stat_set_stat. destruct (Nat.eqb w v) eqn:E; auto. apply Nat.eqb_eq in E. congruence. Qed.
+
+Lemma stale_unvia d t w : stat d w = SStale -> stat (unvia t d) w = SStale.
+Proof. intros H. rewrite stat_unvia, H. reflexivity. Qed.
+
+Lemma stale_reassign d v x w : w <> v -> stat d w = SStale -> stat (reassign d v x) w = SStale.
+Proof. intros N H. unfold reassign. apply stale_set; auto. apply stale_unvia; auto. Qed.
+
+Lemma stale_invalidate d w : stat d w = SStale -> stat (invalidate d) w = SStale.
+Proof. intros H. rewrite stat_invalidate, H. reflexivity. Qed.
+
+Lemma stale_forget d w : stat d w = SStale -> stat (forget d) w = SStale.
+Proof. intros H. rewrite stat_forget, H. reflexivity. Qed.
+
+Lemma stale_drop d v after d1 w : drop_one d v after = Some d1 -> w <> v -> stat d w = SStale -> stat d1 w = SStale.
 Proof.
-  unfold drop_one. intros H N. destruct (stat d v) as [| |[|n]]; try discriminate; inversion H; subst;
-    rewrite stat_set_stat; destruct (Nat.eqb w v) eqn:E; auto; apply Nat.eqb_eq in E; congruence.
+  unfold drop_one. intros H N S. destruct (stat d v) as [| | |[|n]]; try discriminate; inversion H; subst.
+  - apply stale_set; auto. apply stale_unvia; auto.
+  - apply stale_set; auto.
 Qed.
 
 Lemma dstep_other strict d e d' w : dstep strict d e = Some d' -> ~ In w (ev_vars e) ->
-  stat d' w = stat d w \/ stat d' w = demote (stat d w).
+  stat d w = SStale -> stat d' w = SStale.
 Proof.
-  intros H N. destruct e; cbn [dstep ev_vars] in *.
-  - destruct (negb _ && _); inversion H; subst. left. rewrite stat_set_stat.
-    destruct (Nat.eqb w v) eqn:E; auto. apply Nat.eqb_eq in E. subst. exfalso. apply N; cbn; auto.
-  - destruct (negb _ && _); inversion H; subst. left. rewrite stat_set_stat.
-    destruct (Nat.eqb w v) eqn:E; auto. apply Nat.eqb_eq in E. subst. exfalso. apply N; cbn; auto.
-  - destruct (negb _); inversion H; subst. left. rewrite stat_set_stat.
-    destruct (Nat.eqb w v) eqn:E; auto. apply Nat.eqb_eq in E. subst. exfalso. apply N; cbn; auto.
-  - destruct (valid d v); inversion H; subst. left. rewrite stat_set_stat.
-    destruct (Nat.eqb w v) eqn:E; auto. apply Nat.eqb_eq in E. subst. exfalso. apply N; cbn; auto.
-  - destruct (drop_one d v SStale) as [d1|] eqn:Dr; inversion H; subst. right. rewrite stat_invalidate.
-    f_equal. eapply stat_drop_other; eauto. intros F. apply N; cbn; auto.
-  - inversion H; subst. right. apply stat_invalidate.
-  - inversion H; subst. destruct strict; [right; apply stat_invalidate | left; auto].
-  - destruct (valid d v); inversion H; subst. left; auto.
-  - destruct (valid d d0 && valid d v); inversion H; subst. left; auto.
-  - destruct (valid d d0 && negb (Nat.eqb d0 v)); [|discriminate]. left. eapply stat_drop_other; eauto.
+  intros H N S. destruct e; cbn [dstep ev_vars] in *.
+  - destruct (negb _ && _); inversion H; subst. apply stale_reassign; auto. intros F. apply N; cbn; auto.
+  - destruct (negb _ && _); inversion H; subst. apply stale_reassign; auto. intros F. apply N; cbn; auto.
+  - destruct (negb _ && _ && _); inversion H; subst. apply stale_reassign; auto. intros F. apply N; cbn; auto.
+  - inversion H; subst. apply stale_forget; auto.
+  - destruct (negb _); inversion H; subst. apply stale_reassign; auto. intros F. apply N; cbn; auto.
+  - destruct (valid d v); inversion H; subst. destruct (stat d v).
+    + apply stale_reassign; auto. intros F. apply N; cbn; auto.
+    + apply stale_reassign; auto. intros F. apply N; cbn; auto.
+    + apply stale_reassign; auto. intros F. apply N; cbn; auto.
+    + apply stale_set; auto. intros F. apply N; cbn; auto.
+  - destruct (drop_one d v SStale) as [d1|] eqn:Dr; inversion H; subst. apply stale_invalidate.
+    eapply stale_drop; eauto. intros F. apply N; cbn; auto.
+  - inversion H; subst. apply stale_invalidate; auto.
+  - inversion H; subst. destruct strict; [apply stale_invalidate|]; auto.
+  - destruct (valid d v); inversion H; subst. auto.
+  - destruct (valid d d0 && valid d v); inversion H; subst. auto.
+  - destruct (valid d d0 && negb (Nat.eqb d0 v)); [|discriminate]. eapply stale_drop; eauto.
     intros F. apply N; subst; cbn; auto.
   - destruct (mem s (d_empty d)); [|discriminate]. destruct (drop_one d v SFresh) as [d1|] eqn:Dr; inversion H; subst.
-    left. change (stat d1 w = stat d w). eapply stat_drop_other; eauto. intros F. apply N; cbn; auto.
-  - destruct (drop_one d v SFresh) as [d1|] eqn:Dr; inversion H; subst. right. rewrite stat_invalidate.
-    f_equal. eapply stat_drop_other; eauto. intros F. apply N; cbn; auto.
-  - inversion H; subst. right. apply stat_invalidate.
-  - inversion H; subst. left. destruct full; reflexivity.
+    change (stat d1 w = SStale). eapply stale_drop; eauto. intros F. apply N; cbn; auto.
+  - destruct (drop_one d v SFresh) as [d1|] eqn:Dr; inversion H; subst. apply stale_invalidate.
+    eapply stale_drop; eauto. intros F. apply N; cbn; auto.
+  - inversion H; subst. apply stale_invalidate; auto.
+  - inversion H; subst. destruct full; exact S.
   - discriminate.
   - destruct (negb _ && _); [|discriminate]. destruct (drop_one d v SStale) as [d1|] eqn:Dr; inversion H; subst.
-    left. rewrite stat_set_stat. destruct (Nat.eqb w r) eqn:E.
-    + apply Nat.eqb_eq in E. subst. exfalso. apply N; cbn; auto.
-    + eapply stat_drop_other; eauto. intros F. apply N; subst; cbn; auto.
-  - destruct r as [v|]; [|inversion H; subst; left; auto]. left. eapply stat_drop_other; eauto.
+    apply stale_reassign; [intros F; apply N; subst; cbn; auto|].
+    eapply stale_drop; eauto. intros F. apply N; subst; cbn; auto.
+  - destruct r as [v|]; [|inversion H; subst; auto]. eapply stale_drop; eauto.
     intros F. apply N; cbn; auto.
 Qed.
 
@@ -542,7 +627,7 @@ Proof.
   - destruct (is_return e); [discriminate|]. destruct (dstep strict d e) as [d1|] eqn:Ds; [|discriminate].
     destruct (params_owned ps d1); [|discriminate].
     apply (IH d1 d' w H); [intros x Hx; apply N; right; auto|].
-    destruct (dstep_other strict d e d1 w Ds (N e (or_introl eq_refl))) as [E|E]; rewrite E, S; reflexivity.
+    exact (dstep_other strict d e d1 w Ds (N e (or_introl eq_refl)) S).
 Qed.
 
 Lemma dfold_uses strict ps l : forall d d', dfold strict ps d (map EUse l) = Some d' ->
@@ -704,33 +789,35 @@ Section Inline.
       { unfold rho_in in E. destruct (lookup (bind gps args) v) as [a|] eqn:Ev; [apply (lookup_bind_arg _ _ Ev)|].
         apply Hc_k in Hc. lia. }
       specialize (P v Ig). destruct (stat dq v); try discriminate. cbn in Rv. rewrite Rv. reflexivity.
-    - specialize (PA c Hc). destruct (stat dA c) as [| |n] eqn:E; try discriminate.
+    - specialize (PA c Hc). destruct (stat dA c) as [| | |n] eqn:E; try discriminate.
       apply (sim_o _ _ _ _ _ _ S c Oc n) in E. rewrite E. reflexivity.
   Qed.
 
   (* what the caller sees once the callee has returned *)
   Lemma after_callee dqf dif : SimI dqf dif -> d_final gps dqf = true -> params_once gps dqf = true ->
-    forall w, R (demote (stat dA w)) (stat dif w) 0.
+    forall w, R0 (dem2 (stat dA w)) (stat dif w) 0.
   Proof.
     intros S F O w. destruct (image_or_outer w) as [[v [Dv E]]|Ow].
     - pose proof (sim_v _ _ _ _ _ _ S v Dv) as Rv. rewrite E in Rv. unfold rho_in, shift_in in *.
       destruct (lookup (bind gps args) v) as [a|] eqn:Ev.
       + subst w. destruct (lookup_bind_arg _ _ Ev) as [Ia Ig].
         unfold params_once in O. rewrite forallb_forall in O. specialize (O v Ig).
-        destruct (stat dqf v) as [| |[|m]]; try discriminate. cbn in Rv.
-        pose proof (HdA_args a Ia) as Ho. destruct (stat dA a) as [| |n]; try discriminate.
+        destruct (stat dqf v) as [| | |[|m]]; try discriminate. cbn in Rv.
+        pose proof (HdA_args a Ia) as Ho. destruct (stat dA a) as [| | |n]; try discriminate.
         cbn. rewrite Rv. f_equal. lia.
       + destruct Dv as [Dv|Dv]; [congruence|]. subst w. rewrite HdA_fresh by lia. cbn. split; auto.
-        destruct (stat dqf v) as [| |m] eqn:Es; cbn in Rv.
+        destruct (stat dqf v) as [| | |m] eqn:Es; cbn in Rv.
         * tauto.
         * destruct Rv as [_ ->]. reflexivity.
+        * destruct Rv as [_ [-> _]]. reflexivity.
         * exfalso. destruct (stat_owned_entry dqf v m Es) as [y Hy].
           unfold d_final in F. rewrite forallb_forall in F. specialize (F (v, y) Hy). cbn [fst] in F. rewrite Es in F.
           apply andb_true_iff in F. destruct F as [F _]. apply mem_In in F. contradiction.
-    - pose proof (sim_o _ _ _ _ _ _ S w Ow) as So. destruct (stat dA w) as [| |n] eqn:E; cbn.
-      + split; auto. destruct (stat dif w) as [| |m] eqn:E2; auto. destruct (So m) as [_ X]. specialize (X eq_refl). discriminate.
-      + split; auto. destruct (stat dif w) as [| |m] eqn:E2; auto. destruct (So m) as [_ X]. specialize (X eq_refl). discriminate.
-      + rewrite Nat.add_0_r. apply So. reflexivity.
+    - pose proof (sim_o _ _ _ _ _ _ S w Ow) as So.
+      assert (NO : is_owned (stat dA w) = false -> is_owned (stat dif w) = false).
+      { intros No. destruct (stat dif w) as [| | |m] eqn:E2; auto. destruct (So m) as [_ X]. rewrite (X eq_refl) in No. discriminate. }
+      destruct (stat dA w) as [| | |n] eqn:E; cbn; try (split; [reflexivity | apply NO; reflexivity]).
+      rewrite Nat.add_0_r. apply So. reflexivity.
   Qed.
 
   Definition inline_tail (ret qret : option var) : list ev :=
@@ -744,8 +831,8 @@ Section Inline.
     params_owned cps dB = true ->
     match ret with
     | Some r => r < k /\ ~ In r (map snd (bind gps args)) /\ is_owned (stat dA r) = false /\
-                dB = set_stat (invalidate dA) r (SOwned 0) /\ qret <> None
-    | None => dB = invalidate dA /\ qret = None
+                dB = reassign (forget (invalidate dA)) r (SOwned 0) /\ qret <> None
+    | None => dB = forget (invalidate dA) /\ qret = None
     end ->
     exists dI, dfold strict cps dA (map (ren rho_in) qb ++ inline_tail ret qret) = Some dI /\ LE dB dI.
   Proof.
@@ -761,7 +848,7 @@ Section Inline.
         - destruct (lookup_bind_arg _ _ Ew) as [Ia _]. subst. contradiction.
         - lia. }
       assert (Nr : is_owned (stat dI1 r) = false).
-      { destruct (stat dI1 r) as [| |m] eqn:E; auto. apply (sim_o _ _ _ _ _ _ S1 r Or m) in E. rewrite E in HrO. discriminate. }
+      { destruct (stat dI1 r) as [| | |m] eqn:E; auto. apply (sim_o _ _ _ _ _ _ S1 r Or m) in E. rewrite E in HrO. discriminate. }
       assert (Ne : Nat.eqb r (rho_in v) = false).
       { apply Nat.eqb_neq. intros F. apply (Or v Dv). auto. }
       rewrite Nr, Ne. cbn [negb andb].
@@ -770,16 +857,21 @@ Section Inline.
       { intros P. apply shift_in_params in P; auto. unfold params_once in Ho. rewrite forallb_forall in Ho.
         specialize (Ho v P). destruct (stat dq' v); try discriminate. reflexivity. }
       rewrite E2. cbn [option_map].
-      assert (L : LE dB (set_stat dI2 r (SOwned 0))).
+      assert (L : LE dB (reassign dI2 r (SOwned 0))).
       { apply LE_intro.
-        - intros w. subst dB. rewrite !stat_set_stat. destruct (Nat.eqb w r); [cbn; reflexivity|].
-          rewrite stat_invalidate. apply (after_callee dq' dI2 S2 Hf Ho).
+        - intros w. subst dB. rewrite !stat_reassign. destruct (Nat.eqb w r); [cbn; reflexivity|].
+          pose proof (after_callee dq' dI2 S2 Hf Ho w) as A. rewrite !stat_unvia, stat_forget_inval.
+          destruct (stat dA w) as [| | |n]; cbn in A |- *.
+          + destruct A as [_ A]. split; auto. destruct (stat dI2 w); auto. destruct (Nat.eqb t r); auto.
+          + destruct A as [_ A]. split; auto. destruct (stat dI2 w); auto. destruct (Nat.eqb t r); auto.
+          + destruct A as [_ A]. split; auto. destruct (stat dI2 w); auto. destruct (Nat.eqb t0 r); auto.
+          + rewrite A. reflexivity.
         - subst dB. cbn. intros x [].
         - subst dB. cbn. intros x []. }
       rewrite (LE_owned cps _ _ L PB). eexists. split; [reflexivity | exact L].
     - destruct Hret as [EB Hqn]. subst qret. cbn [inline_tail dfold]. cbn [dstep] in Hr. inversion Hr; subst dq'.
       exists dI1. split; auto. apply LE_intro.
-      + intros w. subst dB. rewrite stat_invalidate. apply (after_callee dq dI1 S1 Hf Ho).
+      + intros w. subst dB. rewrite stat_forget_inval. apply (after_callee dq dI1 S1 Hf Ho).
       + subst dB. cbn. intros x [].
       + subst dB. cbn. intros x [].
   Qed.
@@ -867,11 +959,12 @@ Proof.
   rewrite dfold_app in EB. destruct (dfold strict cps dA (map EUse (somes args))) as [d1|] eqn:E1; [|discriminate].
   destruct (dfold_uses strict cps _ _ _ E1) as [-> _].
   cbn [app dfold is_return dstep] in EB. destruct (params_owned cps (invalidate dA)) eqn:PI; [|discriminate].
+  destruct (params_owned cps (forget (invalidate dA))) eqn:PF; [|discriminate].
   rewrite dfold_app in EB.
-  destruct (dfold strict cps (invalidate dA) (map EUse (somes args))) as [d2|] eqn:E2; [|discriminate].
+  destruct (dfold strict cps (forget (invalidate dA)) (map EUse (somes args))) as [d2|] eqn:E2; [|discriminate].
   destruct (dfold_uses strict cps _ _ _ E2) as [-> V2].
   assert (OA : forall a, In a (map snd (bind gps args)) -> is_owned (stat dA a) = true).
-  { intros a Ha. rewrite BA in Ha. specialize (V2 a Ha). unfold valid in V2. rewrite stat_invalidate in V2.
+  { intros a Ha. rewrite BA in Ha. specialize (V2 a Ha). unfold valid in V2. rewrite stat_forget_inval in V2.
     destruct (stat dA a); cbn in V2; try discriminate; reflexivity. }
   assert (Fresh : forall w, k <= w -> stat dA w = SStale).
   { intros w Hw. apply (dfold_untouched strict cps (expand pre) (d_init cps) dA w EA).
@@ -880,15 +973,15 @@ Proof.
       pose proof (so_cps_k _ _ _ _ _ _ _ _ SO w M). lia. }
   assert (Hret : match ret with
                  | Some r => r < k /\ ~ In r (map snd (bind gps args)) /\ is_owned (stat dA r) = false /\
-                             dB = set_stat (invalidate dA) r (SOwned 0) /\ qret <> None
-                 | None => dB = invalidate dA /\ qret = None
+                             dB = reassign (forget (invalidate dA)) r (SOwned 0) /\ qret <> None
+                 | None => dB = forget (invalidate dA) /\ qret = None
                  end).
   { pose proof (so_ret _ _ _ _ _ _ _ _ SO) as SR. destruct ret as [r|].
     - destruct SR as [S1 [S2 S3]]. rewrite BA. cbn [app dfold is_return dstep] in EB.
-      destruct (negb (is_owned (stat (invalidate dA) r))) eqn:Nr; [|discriminate].
-      destruct (params_owned cps (set_stat (invalidate dA) r (SOwned 0))); [|discriminate].
+      destruct (negb (is_owned (stat (forget (invalidate dA)) r))) eqn:Nr; [|discriminate].
+      destruct (params_owned cps (reassign (forget (invalidate dA)) r (SOwned 0))); [|discriminate].
       inversion EB; subst dB. repeat split; auto.
-      apply negb_true_iff in Nr. rewrite stat_invalidate in Nr. destruct (stat dA r); auto.
+      apply negb_true_iff in Nr. rewrite stat_forget_inval in Nr. destruct (stat dA r); auto.
     - cbn [app dfold] in EB. inversion EB; subst. auto. }
   destruct (inline_core strict cps gps args k dA
               (nodup_nat_NoDup _ Ng)
@@ -1075,4 +1168,127 @@ Proof.
   apply split_ret_inv in Es. subst p.
   eapply IH; [|exact H]. eapply T_inl; [exact T | | apply site_okb_ok; exact Sp].
   rewrite <- Eg. apply T_base; auto.
+Qed.
+
+(* ------------------------------------------------------------------ loops: any number of iterations *)
+(* A loop is given by the events [pre] that lead to its head and the event lists [conts] of one complete
+   iteration each (one per way through the body that comes back to the head).  The paths of the
+   skeleton contain the loop run ZERO times (pre ++ rest) and the iterations that leave it by a return.
+   If every iteration, started in the discipline state at the head, ends in a state that is at least as
+   permissive as that state ([leb]: same ownership everywhere, the loop's temporaries given back), then
+   any sequence of iterations can be inserted at the head. *)
+Definition Rb (x y : vstat) : bool :=
+  match x with
+  | SOwned c => match y with SOwned c' => Nat.eqb c c' | _ => false end
+  | SFresh => match y with SFresh => true | _ => false end
+  | SVia t => match y with SVia t' => Nat.eqb t t' | _ => false end
+  | SStale => negb (is_owned y)
+  end.
+
+Definition leb (d1 d2 : dst) : bool :=
+  forallb (fun p => Rb (stat d1 (fst p)) (stat d2 (fst p))) (d_stat d1 ++ d_stat d2) &&
+  forallb (fun x => mem x (d_empty d2)) (d_empty d1) && forallb (fun x => mem x (d_full d2)) (d_full d1).
+
+Lemma Rb_R x y : Rb x y = true -> R0 x y 0.
+Proof.
+  destruct x, y; cbn; intros H; try discriminate; auto.
+  - apply Nat.eqb_eq in H. subst. unfold idv. auto.
+  - apply Nat.eqb_eq in H. subst. rewrite Nat.add_0_r. reflexivity.
+Qed.
+
+Lemma stat_none d v : lookup (d_stat d) v = None -> stat d v = SStale.
+Proof. unfold stat. intros ->. reflexivity. Qed.
+
+Lemma leb_LE d1 d2 : leb d1 d2 = true -> LE d1 d2.
+Proof.
+  unfold leb. rewrite !andb_true_iff. intros [[H1 H2] H3]. rewrite forallb_forall in H1, H2, H3.
+  apply LE_intro.
+  - intros v. destruct (lookup (d_stat d1) v) as [x|] eqn:E1.
+    + destruct (lookup_Some_In _ _ _ E1) as [x' Hx]. apply Rb_R. apply (H1 (v, x')). apply in_or_app. left; auto.
+    + destruct (lookup (d_stat d2) v) as [y|] eqn:E2.
+      * destruct (lookup_Some_In _ _ _ E2) as [y' Hy]. apply Rb_R. apply (H1 (v, y')). apply in_or_app. right; auto.
+      * rewrite (stat_none _ _ E1), (stat_none _ _ E2). cbn. auto.
+  - intros x Hx. apply mem_In. auto.
+  - intros x Hx. apply mem_In. auto.
+Qed.
+
+Lemma R0_trans x y z : R0 x y 0 -> R0 y z 0 -> R0 x z 0.
+Proof.
+  destruct x; cbn.
+  - intros [_ H1] H2. split; auto. destruct y; cbn in *; try discriminate.
+    + destruct H2 as [_ H2]. exact H2.
+    + destruct H2 as [_ H2]. subst. reflexivity.
+    + destruct H2 as [_ [H2 _]]. subst. reflexivity.
+  - intros [_ ->] H2. exact H2.
+  - intros [_ [-> _]] H2. exact H2.
+  - intros -> H2. cbn in H2. rewrite H2. f_equal. lia.
+Qed.
+
+Lemma LE_trans a b c : LE a b -> LE b c -> LE a c.
+Proof.
+  intros H K. apply LE_intro.
+  - intros v. eapply R0_trans; [apply LE_stat; eauto | apply LE_stat; eauto].
+  - eapply incl_tran; [apply H | apply K].
+  - eapply incl_tran; [apply H | apply K].
+Qed.
+
+Definition loop_ok (strict : bool) (ps : list var) (pre : list ev) (conts : list (list ev)) : bool :=
+  match dfold strict ps (d_init ps) (expand pre) with
+  | Some d => forallb (fun c => match dfold strict ps d (expand c) with
+                                | Some d' => leb d d'
+                                | None => false
+                                end) conts
+  | None => false
+  end.
+
+Lemma iterations_fold strict ps conts dA : 
+  (forall c, In c conts -> exists d', dfold strict ps dA (expand c) = Some d' /\ LE dA d') ->
+  forall bs, Forall (fun b => In b conts) bs ->
+  forall d, LE dA d -> exists dn, dfold strict ps d (expand (concat bs)) = Some dn /\ LE dA dn.
+Proof.
+  intros HC bs Fb. induction Fb as [|b bs Hb Fb IH]; intros d L.
+  - exists d. split; auto.
+  - destruct (HC b Hb) as [db [Eb Lb]].
+    destruct (LE_fold strict ps (expand b) dA d db L (dfold_prim _ _ _ _ _ Eb) Eb) as [db' [Eb' Lb']].
+    destruct (IH db' (LE_trans _ _ _ Lb Lb')) as [dn [En Ln]].
+    exists dn. split; auto. cbn [concat]. rewrite expand_app, dfold_app, Eb'. exact En.
+Qed.
+
+Theorem loops_any_count : forall strict ps pre conts rest r,
+  loop_ok strict ps pre conts = true ->
+  Dc strict ps (pre ++ rest) r = true ->
+  forall bs, Forall (fun b => In b conts) bs ->
+  Dc strict ps (pre ++ concat bs ++ rest) r = true.
+Proof.
+  intros strict ps pre conts rest r HL HD bs Fb. unfold loop_ok in HL. unfold Dc, Dc_prim in *.
+  apply andb_true_iff in HD. destruct HD as [Np HD]. rewrite Np. cbn [andb].
+  rewrite !expand_app in *. rewrite dfold_app in HD. rewrite dfold_app.
+  destruct (dfold strict ps (d_init ps) (expand pre)) as [dA|] eqn:EA; [|discriminate].
+  destruct (dfold strict ps dA (expand rest)) as [dC|] eqn:EC; [|discriminate].
+  destruct (dstep strict dC (EReturn r)) as [dD|] eqn:ED; [|discriminate].
+  apply andb_true_iff in HD. destruct HD as [FD OD].
+  rewrite forallb_forall in HL.
+  assert (HC : forall c, In c conts -> exists d', dfold strict ps dA (expand c) = Some d' /\ LE dA d').
+  { intros c Hc. specialize (HL c Hc). destruct (dfold strict ps dA (expand c)) as [d'|]; [|discriminate].
+    exists d'. split; auto. apply leb_LE; auto. }
+  destruct (iterations_fold strict ps conts dA HC bs Fb dA (LE_refl dA)) as [dn [En Ln]].
+  rewrite dfold_app, En.
+  destruct (LE_fold strict ps (expand rest) dA dn dC Ln (dfold_prim _ _ _ _ _ EC) EC) as [dC' [EC' LC]]. rewrite EC'.
+  destruct (LE_return strict dC dC' r dD LC ED) as [dD' [ED' LD]]. rewrite ED'.
+  destruct (LE_final ps dD dD' LD FD OD) as [F' O']. rewrite F', O'. reflexivity.
+Qed.
+
+Theorem loops_safe : forall strict ps pre conts rest r,
+  loop_ok strict ps pre conts = true ->
+  Dc strict ps (pre ++ rest) r = true ->
+  forall bs, Forall (fun b => In b conts) bs ->
+  forall orc s k, init_ok ps s = true ->
+  match exec strict orc (expand (pre ++ concat bs ++ rest) ++ [EReturn r]) s k with
+  | Done s' => balanced ps s' = true
+  | Infeasible => True
+  | Running _ _ => False
+  | Fault _ => False
+  end.
+Proof.
+  intros. apply discipline_safe; auto. apply Dc_prim_D. eapply loops_any_count; eauto.
 Qed.
